@@ -154,16 +154,18 @@ class C16(Profile):
         if sp == 4:
             return os.path.join(world.alias, name)                  # through a symbolic link to the directory
         if sp == 5:
-            hard = os.path.join(world.dir, "hl-" + name)             # a hard link to the file, made once it exists
+            # a hard link to the file, made afresh for this operation (loads only): a saver that writes a temporary
+            # file and renames it over the target gives the path a new inode, and an older link would keep the old one
+            hard = os.path.join(world.dir, "hl-" + name)
             real = os.path.join(world.dir, name)
-            if not os.path.exists(hard):
-                if os.path.exists(real):
-                    try:
-                        os.link(real, hard)
-                    except OSError:
-                        return real
-                else:
-                    return real
+            if op["op"] != "load" or not os.path.exists(real):
+                return real
+            try:
+                if os.path.lexists(hard):
+                    os.unlink(hard)
+                os.link(real, hard)
+            except OSError:
+                return real
             return hard
         return os.path.join(world.dir, name)
 
